@@ -57,7 +57,8 @@ RulesOf(js) == {RuleOf(js[i]) : i \in DOMAIN js}
 RevOf(j) == [label |-> j.label, src |-> j.src, refs |-> Range(j.refs)]
 PathOf(j) == IF j.u # "" THEN <<"url", j.u, j.v>> ELSE <<"resource", j.g, j.r, j.n, j.v>>
 
-IsVal(e) == e.fam \in {"val1", "valx", "val2"}
+\* valr: seeded random vectors beyond the enumerated domain (allow lists / requests of up to three rules, fields of up to three atoms)
+IsVal(e) == e.fam \in {"val1", "valx", "val2", "valr"}
 IsProv(e) == e.fam \in {"fam", "prov"}
 Allow(e) == IF e.input.mode = "cr" THEN RulesOf(e.input.allow) ELSE {}    \* no allow list => nothing is allowed
 Reqs(e) == RulesOf(e.input.reqs)
